@@ -210,14 +210,22 @@ def build(repo):
     u.after(AN, r'let attr_str = [^;]*;', '''        let ghost t = attr_str@.len() as int;
         proof { assert(attr_str@ =~= whole.subrange(0, t)); assert(attr_str@ == la_seg(whole)); /* @props C16 */ }''', nth=1, count=2)
     u.before(AN, r'let \(key, value\) = if let', '        let ghost mut ka: int = 0; let ghost mut kb: int = 0; let ghost mut va: int = 0; let ghost mut vb: int = 0;\n        proof { lemma_first_index(attr_str@, \'=\'); }')
-    u.before(AN, r'let \(key, value\) = str_split_at', '            proof { lemma_first_index(attr_str@, \'=\'); lemma_off_unique(attr_str@, first_index(attr_str@, \'=\')); }')
+    u.before(AN, r'let \(key, value\) = str_split_at', '''            proof {
+                // whichever occurrence of '=' the code looked for, its offset is a character boundary of attr_str
+                let g0 = attr_str@;
+                lemma_first_index(g0, '='); lemma_last_index(g0, '=');
+                assert forall|k: int| 0 <= k <= g0.len() implies is_boundary(g0, #[trigger] boff(g0, k)) && char_at_off(g0, boff(g0, k)) == k by { lemma_off_unique(g0, k); }
+            }''')
     u.before(AN, r'\(key, str_from\(value, 1\)\)', '''            proof {
-                let f = first_index(attr_str@, '=');
+                let g0 = attr_str@;
+                let f = g0.len() - value@.len();      // the split point actually used
+                assert(key@ =~= g0.take(f) && value@ =~= g0.skip(f));
                 assert(value@[0] == '='); axiom_boff_ascii(value@); lemma_off_unique(value@, 1);
                 assert(key@ =~= whole.subrange(0, f));
                 assert(value@.skip(1) =~= whole.subrange(f + 1, t));
-                assert(value@.skip(1) =~= attr_str@.skip(f + 1)); // @props C16
                 ka = 0; kb = f; va = f + 1; vb = t;
+                assert(f == first_index(g0, '=')); // @props C16
+                assert(value@.skip(1) =~= attr_str@.skip(f + 1)); // @props C16
             }''')
     u.before(AN, r'\(attr_str, ""\)', '            proof { assert(""@ =~= whole.subrange(t, t)); assert(""@ =~= Seq::<char>::empty()); ka = 0; kb = t; va = t; vb = t; }')
     u.before(AN, r'Some\(\(str_trim\(key\)', '''        proof {
